@@ -1,10 +1,16 @@
 """Watchdog for calls into odak that may not return (C12; also used by C11 for `refract`).
 
 A persistent worker process imports a harness module once and serves `fn(*args)` requests over a pipe
-(JSON lines).  The parent waits for the answer with a timeout; when it expires the worker is killed and a
-fresh one is started for the next call, so the harness itself can never hang on the code under test.
+(JSON lines).  The parent waits for the answer; when the limit expires the worker is killed and a fresh one is
+started for the next call, so the harness itself can never hang on the code under test.
 
-    g = Guard('harness.props.c12', timeout=10)
+The limit is on the CPU time the worker has consumed for the call (utime + stime from /proc/<pid>/stat), not on
+wall-clock time: a loaded machine slows the worker down without making it use more CPU, so load cannot raise an
+alarm, while a loop that does not end keeps burning CPU and is caught as soon as it has used `timeout` CPU
+seconds.  A generous wall-clock cap (default 30 x the CPU limit, at least 900 s) is the backstop for a call
+that blocks without using CPU.
+
+    g = Guard('harness.props.c12', timeout=10)  # 10 CPU seconds per call
     kind, value = g.call('w_refract', inp)      # kind in {'ok', 'exc', 'timeout'}
 """
 import json, os, select, subprocess, sys, time
@@ -28,10 +34,25 @@ for line in sys.stdin:
 '''
 
 
+_TICK = float(os.sysconf('SC_CLK_TCK'))
+
+
+def cpu_seconds(pid):
+    """CPU time (user + system, all threads) consumed so far by the process, or None if it is gone"""
+    try:
+        with open('/proc/%d/stat' % pid) as f:
+            rest = f.read().rsplit(')', 1)[1].split()
+        return (int(rest[11]) + int(rest[12])) / _TICK
+    except Exception:
+        return None
+
+
 class Guard:
-    def __init__(self, module, timeout=10.0, start_timeout=120.0, max_timeouts=4):
+    def __init__(self, module, timeout=10.0, start_timeout=900.0, max_timeouts=4, wall_cap=None):
         self.module, self.timeout, self.start_timeout = module, timeout, start_timeout
+        self.wall_cap = wall_cap
         self.max_timeouts, self.timeouts, self.calls, self.p = max_timeouts, 0, 0, None
+        self.cpu_used = 0.0
 
     def _start(self):
         env = dict(os.environ)
@@ -42,11 +63,14 @@ class Guard:
             self.close()
             raise RuntimeError('watchdog worker for %s did not start (%r)' % (self.module, line))
 
-    def _readline(self, timeout):
-        """one line from the worker, or None when the timeout expires / the worker died"""
+    def _readline(self, wall, cpu=None):
+        """one line from the worker, or None when the limit expires / the worker died.  `cpu`: limit on the CPU
+        seconds the worker may consume from now on; `wall`: wall-clock backstop."""
         fd = self.p.stdout.fileno()
-        end = time.time() + timeout
+        end = time.time() + wall
+        cpu0 = cpu_seconds(self.p.pid) if cpu is not None else None
         buf = getattr(self, '_buf', b'')
+        self.expired_by = None
         while True:
             if b'\n' in buf:
                 line, _, rest = buf.partition(b'\n')
@@ -54,9 +78,16 @@ class Guard:
                 return line.decode()
             left = end - time.time()
             if left <= 0:
-                self._buf = buf
+                self._buf = buf; self.expired_by = 'wall-clock cap %.0f s' % wall
                 return None
-            r, _, _ = select.select([fd], [], [], left)
+            if cpu0 is not None:
+                now = cpu_seconds(self.p.pid)
+                if now is not None:
+                    self.last_cpu = now - cpu0
+                    if self.last_cpu >= cpu:
+                        self._buf = buf; self.expired_by = '%.1f CPU s' % self.last_cpu
+                        return None
+            r, _, _ = select.select([fd], [], [], min(left, 0.25))
             if not r:
                 continue
             chunk = os.read(fd, 1 << 16)
@@ -69,8 +100,9 @@ class Guard:
         return self.timeouts >= self.max_timeouts
 
     def call(self, fn, *args, timeout=None):
-        """('ok', value) | ('exc', text) | ('timeout', seconds).  After `max_timeouts` expiries no further call is made
-        (each costs the timeout plus a restart) and ('timeout', 0) is returned at once."""
+        """('ok', value) | ('exc', text) | ('timeout', text).  `timeout`: CPU seconds allowed for this call.  After
+        `max_timeouts` expiries no further call is made (each costs the limit plus a restart) and ('timeout', 0) is
+        returned at once."""
         if self.exhausted():
             return 'timeout', 0
         if self.p is None or self.p.poll() is not None:
@@ -83,14 +115,17 @@ class Guard:
         except (BrokenPipeError, OSError):
             self.close()
             return 'exc', 'worker pipe closed'
-        line = self._readline(t)
+        self.last_cpu = 0.0
+        line = self._readline(self.wall_cap if self.wall_cap is not None else max(900.0, 30 * t), cpu=t)
+        self.cpu_used += self.last_cpu
         if line is None:
             died = self.p.poll() is not None
+            why = self.expired_by
             self.close()
-            if died:
+            if died or why is None:
                 return 'exc', 'worker process died'
             self.timeouts += 1
-            return 'timeout', t
+            return 'timeout', 'limit %g CPU s, stopped after %s' % (t, why)
         res = json.loads(line)
         return ('ok', res['ok']) if 'ok' in res else ('exc', res['exc'])
 
